@@ -448,6 +448,15 @@ func (x *Exec) loopHeader(f *Frame, st *State, b *ssa.BasicBlock, prev *ssa.Basi
 			}
 		}
 	}
+	// a unit may state invariants of its own for the loops of a helper inlined into it ("invariant @Helper #k ..."):
+	// what the walk establishes depends on the callback the unit hands to the helper
+	if top := x.unit.Contract; top != nil && top != c {
+		for _, iv := range top.Invariants {
+			if iv.Loop == k && iv.Fn != "" && iv.Fn == lastName(fkey) {
+				invs = append(invs, iv)
+			}
+		}
+	}
 	// set phis from the incoming edge
 	idx := -1
 	for j, p := range b.Preds {
